@@ -250,7 +250,84 @@ def run_fault_prop(prop, tier, seed, replay):
            ["one panic per scenario; the quarantining allocator turns double frees and stale reads into data instead of crashes",
             "leaks after a panic are accepted (PanicSafe demands at-most-once)"], hits, write=not replay)
 
+# ------------------------------------------------------------------------------------------------
+def run_precond_prop(prop, tier, seed, replay):
+    t0 = time.time()
+    key = content_key()
+    res = cache_get("precond", key)
+    if not res:
+        src = os.path.join(HARNESS, "src", "bin", "preconddrv.rs")
+        if not os.path.exists(src):
+            sh(["python3", "tools/gen_precond.py", "src/bin/preconddrv.rs"], cwd=HARNESS)
+        build_harness(["preconddrv"])
+        d = os.path.join(WORK, "cache", key)
+        os.makedirs(d, exist_ok=True)
+        out = os.path.join(d, "precond.ndjson")
+        p = sh([bin_path("preconddrv"), out], timeout=900, check=False)
+        fails = []
+        if p.returncode != 0:
+            fails.append(("C18", 0, "driver-crashed-rc=%d" % p.returncode, ""))
+            lines = [l for l in open(out, errors="replace") if l.endswith("\n")]
+            open(out, "w").writelines(lines)
+        r = tlc_trace("TracePrecond.tla", "TracePrecond.cfg", out, out + ".meta")
+        fails += r["fails"]
+        evs = [json.loads(l) for l in open(out)]
+        res = {"fails": fails, "events": len(evs),
+               "ctor_cases": sum(1 for e in evs if e["ev"] == "ctor"),
+               "dup_ctor_cases": sum(1 for e in evs if e["ev"] == "ctor" and len(set(e["reg"])) < len(e["reg"])),
+               "batch_cases": sum(1 for e in evs if e["ev"] == "batch"),
+               "ragged_batch_cases": sum(1 for e in evs if e["ev"] == "batch" and len(set(e["lens"])) > 1),
+               "samples": [evs[7], evs[600], evs[-5]] if len(evs) > 700 else evs[:3], "trace": out}
+        cache_put("precond", key, res)
+    violations = []
+    for f in res["fails"]:
+        line = f[1]
+        rp = os.path.join(WORK, "replay", "C18-line%d.json" % line)
+        os.makedirs(os.path.dirname(rp), exist_ok=True)
+        case = {}
+        try:
+            case = json.loads(open(res["trace"]).read().splitlines()[line - 1]) if line > 0 else {}
+        except Exception:
+            pass
+        json.dump({"line": line, "check": f[2], "case": case}, open(rp, "w"))
+        violations.append({"what": "%s: %s" % (f[2], json.dumps(case)[:200]), "replay": rp})
+    cov = {"evaluations": res["events"], "distinct_nontrivial": res["dup_ctor_cases"] + res["ragged_batch_cases"],
+           "rule": "every registry of length 2..9 with one repeated type at every pair of positions (120) x 5 constructors, 10 duplicate-free controls x 5 constructors, every column-length vector over {0,1,2,3} for 1..4 columns (340); non-trivial = the precondition is violated (must panic); TLC checks the outcome of each case and that the enumerated space is complete",
+           "samples": res["samples"], "constructor_cases": res["ctor_cases"], "batch_cases": res["batch_cases"],
+           "exhaustive": True}
+    finish(prop, tier, seed, "exploration", cov, violations, t0,
+           ["the space is the one stated in the property (registry length <= 9, column lengths 0..3, 1..4 columns)"], [], write=not replay)
+
+# ------------------------------------------------------------------------------------------------
+import pipe_borrow
+def run_borrow_prop(prop, tier, seed, replay):
+    t0 = time.time()
+    res = pipe_borrow.run_borrow(tier, seed)
+    harness = [f for f in res["fails"] if f["prop"] == "HARNESS"]
+    if harness:
+        raise ToolError("generated control program rejected / family incomplete (not a verdict): %s" % harness[:3])
+    kn = [k for k in load_known().get("known", []) if k["property"] == prop]
+    violations, hits = [], []
+    for f in res["fails"]:
+        k = next((k for k in kn if k["signature"] == f["id"]), None)
+        if k:
+            hits.append(k["what"])
+            continue
+        violations.append({"what": "%s: program %s (label %s) was %s by rustc" % (f["name"], f["id"], f["label"], f["verdict"]), "replay": f["replay"]})
+    cov = {"programs": res["programs"], "disagreements_checked": len(res["fails"]), "samples": res["samples"],
+           "evaluations": res["programs"], "distinct_nontrivial": res["reject_cases"],
+           "rule": "one program per case of spec/Borrow.tla (enumerated by TLC): each pair of view kinds on one component in views/views, views/entry views, entry/entry positions; each pair of resource view kinds; repeated entry queries through World::entry, Entries::entry and two Entries entries; component / resource / entry view outside the registry; 11 thread-crossing APIs x {Send+Sync, !Send, !Sync} payloads; every rejecting case is paired with a conflict-free control that must compile; non-trivial = labelled reject",
+           "reject_cases": res["reject_cases"], "control_cases": res["control_cases"], "unconstrained_cases": res["either_cases"],
+           "error_codes_seen": res["error_codes"], "exhaustive": True}
+    finish(prop, tier, seed, "translation_validation", cov, violations, t0,
+           ["rustc is the implementation; soundness of the trait machinery for programs outside the generated family is not established",
+            "rejection is taken from the exit status; error classes are recorded, not judged"], hits, write=not replay)
+
 def run(prop, tier, seed, replay):
+    if prop == "C14":
+        return run_borrow_prop(prop, tier, seed, replay)
+    if prop == "C18":
+        return run_precond_prop(prop, tier, seed, replay)
     if prop == "C17":
         return run_fault_prop(prop, tier, seed, replay)
     if prop in WORLD_NOTES:
